@@ -170,6 +170,11 @@ def representative(L, cls, flavor='abstract'):
     from hidc.codegen.symbols import AccessMode
     from hidc.lexer.tokens import Ident
     A = ast
+    if flavor == 'safe-and-literal':
+        # `<local> op <literal>`: a composite one of whose parts is a constant
+        if cls in (A.Add, A.Sub, A.Mul, A.Div, A.Mod, A.Lt, A.Le, A.Gt, A.Ge, A.Eq, A.Ne): return cls(SPAN, L.local('a'), L.literal('k'))
+        if cls is A.Speculation: return cls(SPAN, L.local('a'), L.literal('k'))
+        return None
     if flavor == 'safe-operands':
         o = lambda n, t=I: L.local(n, t)
         if cls in (A.IntValue, A.ByteValue, A.BoolValue, A.StringValue, A.VariableLookup, A.FuncCall, A.ArrayLiteral, A.ArrayInitializer, A.StringToByteArray, A.Volatile):
@@ -231,14 +236,14 @@ def run_safe_contract(w, unchecked=False):
     from hidc.codegen import asm as _asm
     from hidv.harness.lemma import FAILED as _F, DISCHARGED as _D, UNDECIDED as _U
     res = []
-    PR = ('C01', 'C09') + (('C15',) if unchecked else ())
+    PR = ('C01', 'C09', 'C14') + (('C15',) if unchecked else ())          # C14: partly constant operands
     never_generated = {'Is', 'Parameter', 'PrimitiveValue', 'TypeCast', 'Expression', 'Assignable', 'Operator', 'Binary', 'Unary', 'BooleanOp', 'LogicalOp', 'CompareOp',
                        'EqualityOp', 'ArithmeticOp', 'BinaryArithmeticOp', 'UnaryArithmeticOp'}
     for cls in concrete_expression_classes():
         if cls.__name__ in never_generated:
             continue
-        for r_out, flavor in itertools.product(('r0', 'r1', 'r2'), ('abstract', 'safe-operands')):
-            tagname = ('' if flavor == 'abstract' else 'safe-operands/') + ('unchecked/' if unchecked else '')
+        for r_out, flavor in itertools.product(('r0', 'r1', 'r2'), ('abstract', 'safe-operands', 'safe-and-literal')):
+            tagname = ('' if flavor == 'abstract' else flavor + '/') + ('unchecked/' if unchecked else '')
             L = Lemma(f'expr/is_safe/{cls.__name__}/{tagname}{r_out}/w{w}', w, unchecked, src=None)
             L.functions.update(['hidc.codegen.generator.CodeGen.is_safe', 'hidc.codegen.generator.CodeGen.get_expr_value', 'hidc.codegen.generator.CodeGen.eval_expr'])
             t0 = _t.time()
@@ -281,7 +286,7 @@ def run_safe_contract(w, unchecked=False):
 def tasks(tier):
     out = []
     for w in WIDTHS[tier]:
-        out.append(task(MOD, 'run_safe_contract', ('C01', 'C09', 'C10'), label=f'expr/is_safe/w{w}', cost=5, w=w))
+        out.append(task(MOD, 'run_safe_contract', ('C01', 'C09', 'C10', 'C14'), label=f'expr/is_safe/w{w}', cost=5, w=w))
         out.append(task(MOD, 'run_safe_contract', ('C01', 'C09', 'C10', 'C15'), label=f'expr/is_safe/w{w}/u1', cost=5, w=w, unchecked=True))
     for w in WIDTHS[tier]:
         for unchecked in (False, True):
